@@ -379,7 +379,9 @@ static wres w_pointer_set(int v)
 	}
 	json_object *root = pre_doc;
 	int rc = v == 0 ? json_pointer_set(&root, "/a/2/newkey", val) : v == 1 ? json_pointer_set(&root, "/a/-", val)
-	                                                              : json_pointer_setf(&root, val, "/%s/%d", "a", 0);
+	       : v == 3 ? json_pointer_set(&root, "/a/2/esc~1aped~0key", val) /* (a last token that has to be unescaped into a copy) */
+	       : v == 4 ? json_pointer_setf(&root, val, "/a/2/%s", "~0~1")
+	                : json_pointer_setf(&root, val, "/%s/%d", "a", 0);
 	if (rc == 0)
 	{
 		r.status = 0;
@@ -482,7 +484,7 @@ static struct
 	int uses_pre; /* operates on the caller-owned objects: worth repeating after a history */
 } W[] = {{"parse_ex", w_parse, 12, 0},   {"tokener_parse", w_parse_simple, 1, 0}, {"construct", w_construct, 10, 0}, {"object_add", w_obj_add, 3, 1},
          {"array_grow", w_arr, 9, 1},    {"set_string", w_set_string, 6, 1},      {"deep_copy", w_deep_copy, 1, 1},  {"serialize", w_serialize, 13, 1},
-         {"pointer_set", w_pointer_set, 3, 1}, {"pointer_get", w_pointer_get, 2, 1}, {"patch", w_patch, 7, 1},
+         {"pointer_set", w_pointer_set, 5, 1}, {"pointer_get", w_pointer_get, 2, 1}, {"patch", w_patch, 7, 1},
          {"double_format", w_double_format, 2, 0}};
 #define NW (int)(sizeof W / sizeof *W)
 
